@@ -7,7 +7,12 @@ tie   : correspondence stream `distance` — harness/c08.cpp sends generated gri
         distance entry point of the C API and writes inputs + answers into the case line; the Lean driver
         (drv_c08) evaluates the exact specification and prints `ok` or the violated clauses.  Because the
         driver checks the property's own condition against the exact value, every non-`ok` line is a
-        concrete failing input for the property (or for the model, clause MODEL-*)."""
+        concrete failing input for the property (or for the model, clause MODEL-*).
+translator : translate/specs/distance_core.py regenerates Distance::pointToSegment / segmentToSegment, CoordinateXY::distance /
+        equals2D / operator==, Envelope::distanceSquared / distance / intersects(p1,p2,q1,q2) into
+        lean/GeosModel/Generated/DistanceCore.lean on every run; lean/GeosModel/Props/C08Gen.lean proves them equal (over Int,
+        and over the reals where the code divides and takes square roots) to boxBox2, Kernel.envIntersects and the square roots of
+        the exact rationals pointSeg2 / segSeg2 the property theorems are about.  The `distance` streams run the same C++ functions."""
 import os, json, struct
 import verif
 from verif import log
@@ -331,12 +336,18 @@ def run(ctx):
         "Kernel.segRel / Kernel.locateInPolygon (shared exact predicates, property C07) decide contact and containment inside the specification",
         "the model of the branch-and-bound loop is STR.nnLoop (single query item against one tree); the dual-tree traversal of "
         "TemplateSTRtreeDistance is an instance of the same abstract search but is tied only through its results",
+        "about 7% of the pairs are 'pythagorean': the nearest points are facing envelope corners separated by (a k, b k) for a Pythagorean triple and a random "
+        "odd k up to 2^31/c, so the true distance c k is a representable double while the squares of the differences need more than 53 bits; within-tests "
+        "are asked at the reported distance, one ulp below / above it, and at the exactly representable distance of the reported nearest points",
+        "a within-test exactly at the true distance must answer true unless the distance the implementation itself reports through the same entry point is "
+        "(an ulp) larger than the threshold — then `false` agrees with the reported distance, which the 1e-12 clause allows",
         "inputs: grid coordinates under lattice symmetries, integer translation (<= 2e6) and scaling by 2^k (stream distance), and the same shapes under "
         "a similarity with arbitrary double coefficients (stream distance-fp); polygons valid by construction; near-degenerate full-precision "
         "contacts (vertex 1e-16 off an edge) are not generated",
         "tolerances: 1e-12 relative on distances (|r^2-d^2| <= 4e-12 d^2, exact zero test); computed nearest points / Hausdorff feet may be off by max|coordinate|*2^-40",
     ])
-    proved = ctx.prove(PROPS, extra_targets=(DRV,))
+    # translator tie: the distance primitives are regenerated from the current C++ and proved equal to Model/Distance/Spec.lean, BB.lean
+    proved = ctx.prove_generated([("distance_core", "GeosModel/Generated/DistanceCore.lean", "GeosModel.Props.C08Gen")], PROPS, extra_targets=(DRV,))
     ok, out = verif.build_geos("rel")
     if not ok:
         ctx.violation("GEOS does not build with -DGEOS_VERIF", {"kind": "build-failure", "log": out[-3000:]}, nofail=True)
